@@ -223,19 +223,58 @@ func abs(t int64) TArg { return TArg{Has: true, S: Bs(strconv.FormatInt(t, 10)),
 func genValid(r *rand.Rand, c *caseCtx) Step {
 	format := lib.Pick(r, []string{"groups", "groups", "lines", "trie", "trie", "tree", "tree"})
 	s := Step{Name: Bs(lib.Pick(r, c.names)), Single: true}
+	// the parser is selected by the ladder of ingestParamsFromRequest: tree if format=tree or Content-Type ...+tree, else trie
+	// if format=trie or Content-Type ...+trie, else lines if format=lines, else groups: the Content-Type is honoured whatever
+	// the format parameter says.  Requests carry the parameter, the header, or BOTH (matching, non-matching, unknown, empty),
+	// always such that the ladder selects the parser of the body's encoding.
+	textCT := []string{"text/plain", "application/x-www-form-urlencoded", "application/octet-stream", "binary/octet-stream", "binary/octet-stream+lines", "junk/type"}
+	unknown := []string{"folded", "pprof", "collapsed", "TRIE", "tire", "json"}
 	switch format {
 	case "groups":
-		if lib.Chance(r, 0.3) {
-			s.Format = sptr(lib.Pick(r, []string{"groups", "", "collapsed"}))
+		switch r.Intn(4) {
+		case 0:
+			s.Format = sptr(lib.Pick(r, append([]string{"groups", ""}, unknown...)))
+		case 1:
+			s.Format = sptr(lib.Pick(r, append([]string{"groups", ""}, unknown...)))
+			s.CType = lib.Pick(r, textCT)
+		case 2:
+			s.CType = lib.Pick(r, textCT)
 		}
-	case "trie", "tree":
-		if lib.Chance(r, 0.3) {
-			s.CType = "binary/octet-stream+" + format
-		} else {
-			s.Format = sptr(format)
+	case "lines":
+		s.Format = sptr("lines")
+		if lib.Chance(r, 0.5) {
+			s.CType = lib.Pick(r, textCT)
 		}
-	default:
-		s.Format = sptr(format)
+	case "tree":
+		switch r.Intn(5) {
+		case 0:
+			s.Format = sptr("tree")
+		case 1:
+			s.CType = "binary/octet-stream+tree"
+		case 2: // both, matching
+			s.Format, s.CType = sptr("tree"), "binary/octet-stream+tree"
+		case 3: // header with a non-matching, unknown or empty parameter: the header wins (tree is tested first)
+			s.CType = "binary/octet-stream+tree"
+			s.Format = sptr(lib.Pick(r, append([]string{"", "lines", "groups", "trie"}, unknown...)))
+		default: // parameter with a non-matching header: format=tree wins over everything
+			s.Format = sptr("tree")
+			s.CType = lib.Pick(r, append([]string{"binary/octet-stream+trie"}, textCT...))
+		}
+	case "trie":
+		switch r.Intn(5) {
+		case 0:
+			s.Format = sptr("trie")
+		case 1:
+			s.CType = "binary/octet-stream+trie"
+		case 2:
+			s.Format, s.CType = sptr("trie"), "binary/octet-stream+trie"
+		case 3: // header with a non-matching text, unknown or empty parameter: the header wins
+			s.CType = "binary/octet-stream+trie"
+			s.Format = sptr(lib.Pick(r, append([]string{"", "lines", "groups"}, unknown...)))
+		default: // parameter with a non-binary header
+			s.Format = sptr("trie")
+			s.CType = lib.Pick(r, textCT)
+		}
 	}
 	s.Recs = randRecs(r, format)
 	s.HasRecs = true
@@ -372,6 +411,12 @@ func genBad(r *rand.Rand, c *caseCtx) Step {
 		s.Format, s.CType = sptr(lib.Pick(r, []string{"trie", "tree", "lines"})), ""
 		if binary {
 			s.Format = sptr("lines")
+		}
+		if lib.Chance(r, 0.4) { // parameter and header that disagree with each other and, through the ladder, with the body
+			s.Format, s.CType = sptr(lib.Pick(r, []string{"trie", "lines", "folded"})), "binary/octet-stream+tree"
+			if f == "tree" {
+				s.Format, s.CType = sptr(lib.Pick(r, []string{"lines", "folded", ""})), "binary/octet-stream+trie"
+			}
 		}
 		s.HasRecs, s.Recs, s.Mut = false, nil, "wrongformat"
 	case 8: // junk / negative from: means now
